@@ -69,92 +69,8 @@ def run(ctx):
     real_base = R.real_namespace()
     ref_base = R.ref_namespace()
 
-    # ------------------------------------------------------------------ literals
-    def rnum(rng, tc):
-        if tc == "i":
-            return rng.choice([0, 0, 1, -1, 2, 3, -3, 5, -7, 9, rng.randint(-9, 9)])
-        if tc == "d":
-            if rng.random() < 0.7:
-                return rng.randint(-20, 20) / 4.0
-            return round(rng.uniform(-5, 5), 3)
-        return complex(rng.randint(-8, 8) / 2.0, rng.randint(-8, 8) / 2.0)
-
-    def rtc(rng):
-        return rng.choice("iiddz")
-
-    def rdim(rng):
-        return rng.choice([0, 1, 1, 2, 2, 2, 3, 3, 4])
-
-    def vals_src(vals):
-        return "[" + ", ".join(repr(v) for v in vals) + "]"
-
-    def lit(rng, tc, m, n):
-        vals = [rnum(rng, tc) for _ in range(m * n)]
-        return "matrix(%s, (%d,%d), '%s')" % (vals_src(vals), m, n, tc)
-
-    def divisors(k):
-        return [d for d in range(1, k + 1) if k % d == 0]
-
-    # ------------------------------------------------------------------ index expressions
-    INDEX_KINDS = ["int", "int", "negint", "int-oor", "slice", "slice", "list", "list-neg", "list-oor",
-                   "list-empty", "imat", "imat-neg", "imat-oor", "imat-empty", "imat-2d", "bad-dmat", "bad-float",
-                   "bad-none", "bad-str", "pool-imat"]
-
-    def index_src(rng, dim, ls):
-        """-> (kind, source, is_scalar)"""
-        kind = rng.choice(INDEX_KINDS)
-        if dim == 0 and kind in ("int", "negint", "list", "list-neg", "imat", "imat-neg", "imat-2d"):
-            kind = rng.choice(["int-oor", "slice", "list-empty", "list-oor", "imat-empty"])
-        if kind == "int":
-            return kind, str(rng.randrange(dim)), True
-        if kind == "negint":
-            return kind, str(-rng.randint(1, dim)), True
-        if kind == "int-oor":
-            return kind, str(rng.choice([dim, dim + 1, -dim - 1, -dim - 2, 99, -99])), True
-        if kind == "slice":
-            def f():
-                return rng.choice(["", "", str(rng.randint(-dim - 2, dim + 2))])
-            step = rng.choice(["", "", "", ":2", ":-1", ":-2", ":3", ":1"])
-            return kind, "%s:%s%s" % (f(), f(), step), False
-        if kind == "list":
-            return kind, str([rng.randrange(dim) for _ in range(rng.randint(1, 4))]), False
-        if kind == "list-neg":
-            l = [rng.randint(-dim, dim - 1) for _ in range(rng.randint(1, 4))]
-            l[rng.randrange(len(l))] = -rng.randint(1, dim)
-            return kind, str(l), False
-        if kind == "list-oor":
-            l = [rng.randint(-dim, dim - 1) if dim else 0 for _ in range(rng.randint(1, 3))]
-            l[rng.randrange(len(l))] = rng.choice([dim, -dim - 1, dim + 3, 50])
-            return kind, str(l), False
-        if kind == "list-empty":
-            return kind, "[]", False
-        if kind == "imat":
-            return kind, "matrix(%s)" % [rng.randrange(dim) for _ in range(rng.randint(1, 4))], False
-        if kind == "imat-neg":
-            l = [rng.randint(-dim, dim - 1) for _ in range(rng.randint(1, 4))]
-            l[rng.randrange(len(l))] = -rng.randint(1, dim)
-            return kind, "matrix(%s)" % l, False
-        if kind == "imat-2d":
-            return kind, "matrix(%s, (2,2))" % [rng.randint(-dim, dim - 1) for _ in range(4)], False
-        if kind == "imat-oor":
-            l = [rng.randint(-dim, dim - 1) if dim else 0 for _ in range(rng.randint(1, 3))]
-            l[rng.randrange(len(l))] = rng.choice([dim, -dim - 1, dim + 3, 50])
-            return kind, "matrix(%s)" % l, False
-        if kind == "imat-empty":
-            return kind, "matrix([], (0,1), 'i')", False
-        if kind == "bad-dmat":
-            return kind, "matrix([0.0])", False
-        if kind == "bad-float":
-            return kind, "0.0", True
-        if kind == "bad-none":
-            return kind, "None", True
-        if kind == "bad-str":
-            return kind, "'a'", True
-        # pool-imat: an integer pool matrix used as index list (values are whatever they are)
-        cands = [n for n in ls.live() if ls.ref[n].tc == "i"]
-        if not cands:
-            return "list-empty", "[]", False
-        return kind, rng.choice(cands), False
+    rnum, rtc, rdim, vals_src, lit, divisors = R.rnum, R.rtc, R.rdim, R.vals_src, R.lit, R.divisors
+    index_src, primary = R.index_src, R.primary
 
     # ------------------------------------------------------------------ one program
     def one(c):
@@ -316,9 +232,8 @@ def run(ctx):
                 k2, s2, sc2 = index_src(rng, r.n, ls)
                 ctx.count("c15.index." + k1)
                 ctx.count("c15.index." + k2)
-                kinds = k1 + "," + k2
                 src, scalar = "%s[%s, %s]" % (p, s1, s2), (sc1 and sc2)
-                label = "getitem2:" + kinds
+                label = "getitem2:" + primary(k1, k2)
             else:
                 k1, s1, scalar = index_src(rng, r.m * r.n, ls)
                 ctx.count("c15.index." + k1)
@@ -342,7 +257,7 @@ def run(ctx):
                 ctx.count("c15.index." + k1)
                 ctx.count("c15.index." + k2)
                 lhs = "%s[%s, %s]" % (p, s1, s2)
-                kinds = k1 + "," + k2
+                kinds = primary(k1, k2)
             else:
                 k1, s1, _ = index_src(rng, r.m * r.n, ls)
                 ctx.count("c15.index." + k1)
@@ -399,7 +314,7 @@ def run(ctx):
                 rhs = "spmatrix(%s, %s, %s, (%d,%d))" % (vals_src([rnum(rng, stc) for _ in range(cnt)]), I, J, mm, nn2)
             else:
                 rhs = rng.choice(["'x'", "None", "[1, 'a']", "{1: 2}"])
-            do("%s = %s" % (lhs, rhs), ("setitem2:" if two else "setitem1:") + kinds + ":" + rk)
+            do("%s = %s" % (lhs, rhs), ("setitem2:" if two else "setitem1:") + "rhs-" + rk + ":" + kinds)
 
         def operand(rng_, x, for_mul):
             """second operand for matrix x (a pool name): (pairing, source)"""
@@ -588,7 +503,7 @@ def run(ctx):
 
         def g_overflow():
             """small dedicated class: integers that do not fit the matrix's integer type"""
-            big = rng.choice(["2**63", "2**64", "-2**63 - 1", "2**70", "10**30"])
+            big = rng.choice(["2**63", "2**64", "(-2**63 - 1)", "2**70", "10**30"])
             cands = [n for n in ls.live() if ls.ref[n].tc == "i" and ls.ref[n].m * ls.ref[n].n > 0]
             forms = ["construct-number", "construct-list", "construct-tc-d"]
             if cands:
